@@ -150,6 +150,7 @@ func (c *client) Disconnected() async.Flag {
 func (c *client) Close() status.Status {
 	c.mu.Lock()
 	defer c.mu.Unlock()
+	defer c.vstate("cl.close")
 
 	if c.closed_.IsSet() {
 		return status.OK
@@ -233,6 +234,7 @@ var _ connDelegate = (*client)(nil)
 func (c *client) onConnClosed(conn internalConn) {
 	c.mu.Lock()
 	defer c.mu.Unlock()
+	defer c.vstate("cl.connclosed")
 
 	// Delete connection
 	conns := c.conns.Load().remove(conn)
@@ -257,6 +259,7 @@ func (c *client) onConnClosed(conn internalConn) {
 func (c *client) onConnChannelsReached(conn internalConn) {
 	c.mu.Lock()
 	defer c.mu.Unlock()
+	defer c.vstate("cl.reached")
 
 	max := c.options.ClientMaxConns
 	if max <= 0 {
@@ -286,6 +289,7 @@ func (c *client) conn() (internalConn, async.Future[internalConn], status.Status
 	// Slow path
 	c.mu.Lock()
 	defer c.mu.Unlock()
+	defer c.vstate("cl.slow")
 
 	// Check again
 	if c.closed_.IsSet() {
@@ -332,6 +336,7 @@ func (c *client) connect1(ctx async.Context) (internalConn, status.Status) {
 	// Clear connecting
 	c.mu.Lock()
 	defer c.mu.Unlock()
+	defer c.vstate("cl.tail")
 	c.connecting.Clear()
 
 	// Return if connected
@@ -370,6 +375,7 @@ func (c *client) connectRecover(ctx async.Context) (_ internalConn, st status.St
 	attempt := func() int {
 		c.mu.Lock()
 		defer c.mu.Unlock()
+		defer c.vstate("cl.attempt")
 
 		c.connectAttempt++
 		return c.connectAttempt
@@ -396,6 +402,7 @@ func (c *client) connectRecover(ctx async.Context) (_ internalConn, st status.St
 	// Add connection
 	c.mu.Lock()
 	defer c.mu.Unlock()
+	defer c.vstate("cl.add")
 
 	if c.closed_.IsSet() {
 		conn.Close()
